@@ -126,7 +126,6 @@ func (w *World) verifyUnit(u *Unit) *Exec {
 					e.lastretNamed = map[string]bool{}
 				}
 				e.lastretNamed[m[1]] = true
-				e.heapMap("GS_ret."+sanitize(m[1]), "Int")
 			}
 			for _, m := range callsRe.FindAllStringSubmatch(t, -1) {
 				if e.callsNamed == nil {
